@@ -95,7 +95,7 @@ func VerifC02Handlers() {
 		conn.st.Associate("#c", "n")
 	}
 	verbs := vC02Verbs()
-	vAssert(len(verbs) >= 25, "handler-tables-read")
+	vAssert(len(verbs) >= 10, "handler-tables-read")
 	v := vLen("verb", 0, len(verbs)-1)
 	src := ""
 	if vLen("hassrc", 0, 1) == 1 {
